@@ -622,6 +622,26 @@ func main() {
 		// the caller reuses every buffer it handed to a Write
 		w.a.Scribble, w.b.Scribble = true, true
 		opts := model.GenOpts{Uploads: true, BadRange: true}
+		if h%80 == 7 {
+			// a manifest larger than anything a registry front end is likely to have seen (the size itself is
+			// nobody's business but the backend's): pushed, then resolved and read back by tag and by digest
+			n := []int{4<<20 + 1, 4<<20 + 4104, 5 << 20, 4 << 20}[(h/80)%4]
+			data := bytes.Repeat([]byte("0123456789abcdef"), n/16+1)[:n]
+			copy(data, fmt.Sprintf("huge manifest %d ", h))
+			repo := uu.Repos[rng.IntN(len(uu.Repos))]
+			run.Count("huge_manifest_pushes", 1)
+			for _, op := range []*model.Op{
+				{Kind: "PushManifest", Repo: repo, Tag: "huge", Data: data, MediaType: "application/x-opaque-huge"},
+				{Kind: "ResolveTag", Repo: repo, Tag: "huge"},
+				{Kind: "GetTag", Repo: repo, Tag: "huge"},
+				{Kind: "PushManifest", Repo: repo, Data: data[:n-1], MediaType: "application/x-opaque-huge"},
+				{Kind: "GetManifest", Repo: repo, Digest: model.Digest(data[:n-1])},
+			} {
+				if !w.step(op) {
+					break
+				}
+			}
+		}
 		for i := 0; i < 30; i++ {
 			var op *model.Op
 			switch rng.IntN(14) {
@@ -695,6 +715,7 @@ func main() {
 		midwayFailure(run, i)
 	}
 	run.FloorCounter("midway_failures", 100)
+	run.FloorCounter("huge_manifest_pushes", 10)
 	run.FloorCounter("large_listings", 8)
 	run.FloorCounter("backend_calls", 5000)
 	run.FloorCounter("errors_relayed", 500)
